@@ -69,6 +69,8 @@ type Contract struct {
 	Inline             bool
 	Trusted            bool
 	StrictLen          bool
+	AssumeChecks       bool // after a run-time check of a Go statement (bounds, nil, ...) the rest of the path holds the checked condition
+	AddressQuant       bool // restate single-variable slice quantifiers over element addresses (see addressQuant)
 	ThreadLocal        bool
 	NoPanicOnly        bool
 	Props              []string
@@ -274,6 +276,10 @@ func (ss *SpecSet) parseSpec(text, path, pkgPath string) error {
 			cur.NilRecvOK = true
 		case "strict-len":
 			cur.StrictLen = true
+		case "assume-checks":
+			cur.AssumeChecks = true
+		case "address-quant":
+			cur.AddressQuant = true
 		case "thread-local":
 			cur.ThreadLocal = true
 		case "houdini":
